@@ -657,6 +657,114 @@ class Frame:
         return MISSING
 
 
+# --------------------------------------------------------------------------- module-level memo dicts
+def memo_writers(module, name):
+    """names of the module's functions that store into the module-level dict `name` (D[k] = v, also as one
+    target of a chained assignment), or None when `name` is not an initially empty dict literal / nobody
+    stores into it"""
+    cache = module.__dict__.setdefault("_memo_writers", {})
+    if name in cache:
+        return cache[name]
+    expr = module.assigns.get(name)
+    empty = (isinstance(expr, ast.Dict) and not expr.keys) or (
+        isinstance(expr, ast.Call) and isinstance(expr.func, ast.Name) and expr.func.id == "dict"
+        and not expr.args and not expr.keywords)
+    writers = None
+    if empty:
+        found = set()
+        for fn in ast.walk(module.tree):
+            if not isinstance(fn, (ast.FunctionDef, ast.Lambda)):
+                continue
+            for x in ast.walk(fn):
+                if isinstance(x, ast.Subscript) and isinstance(x.ctx, (ast.Store, ast.Del)) \
+                        and isinstance(x.value, ast.Name) and x.value.id == name:
+                    found.add(getattr(fn, "name", "<lambda>"))
+                if isinstance(x, ast.Call) and isinstance(x.func, ast.Attribute) and isinstance(
+                        x.func.value, ast.Name) and x.func.value.id == name and x.func.attr in (
+                        "setdefault", "update", "pop", "clear", "popitem", "__setitem__"):
+                    found.add("<method %s>" % x.func.attr)
+        writers = sorted(found) or None
+    cache[name] = writers
+    return writers
+
+
+class SMemoDict(SV):
+    """a module-level dict used as a memo by one function F of the module (`try: return D[key]` /
+    `D[key] = value`).  What a lookup finds was stored by an earlier call of F: a hit returns the value
+    that call stored -- F re-enacted on fresh arguments of the same kinds whose key equals the present
+    key -- and a miss raises KeyError.  Both are explored.  Anything else (several writers, other dict
+    methods) is outside the modelled subset."""
+
+    def __init__(self, module, name, writers):
+        self.module, self.name, self.writers = module, name, writers
+
+    def __repr__(self):
+        return "<memo dict %s.%s>" % (self.module.name, self.name)
+
+    def _key(self):
+        return self.module.name + "." + self.name
+
+    def _frame(self, it):
+        if len(self.writers) != 1 or self.writers[0].startswith("<"):
+            raise Unsupported("module-level dict %s written by %s" % (self._key(), self.writers))
+        for fr in reversed(it.frames):
+            if fr.func is not None and fr.func.node.name == self.writers[0] and fr.module is self.module:
+                return fr
+        raise Unsupported("module-level dict %s read outside the function that fills it" % self._key())
+
+    def sv_setitem(self, it, key, value):
+        it.memo_stores.setdefault(self._key(), []).append((key, value))
+
+    def _earlier(self, it, key):
+        fr = self._frame(it)
+        args = {n: it.domain.fresh_like(it, v, "earlier_" + n) for n, v in fr.entry_args.items()}
+        k = self._key()
+        stores = it.memo_stores.setdefault(k, [])
+        mark = len(stores)
+        it.memo_mode[k] = "miss"
+        try:
+            it.run_body(fr.func, [], args)
+        finally:
+            it.memo_mode.pop(k, None)
+        mine = stores[mark:]
+        del stores[mark:]
+        if not mine:
+            raise Infeasible()               # that earlier call left nothing behind
+        key2, value = mine[-1]
+        same = it.compare("==", key2, key)
+        if same is False:
+            raise Infeasible()
+        if same is not True:
+            it.assume(to_z3(it.truth_term(same)))
+        it.ctx.events.append(("memo-hit", k))
+        return value
+
+    def sv_getitem(self, it, key):
+        k = self._key()
+        if it.memo_mode.get(k) == "miss":
+            raise PyRaise("KeyError")
+        for key2, value in reversed(it.memo_stores.get(k, [])):
+            if key2 is key:
+                return value
+        self._frame(it)
+        if it.branch(it.fresh_bool("memo_%s_hit" % self.name)):
+            return self._earlier(it, key)
+        raise PyRaise("KeyError")
+
+    def sv_contains(self, it, key):
+        k = self._key()
+        if it.memo_mode.get(k) == "miss":
+            return False
+        self._frame(it)
+        raise Unsupported("membership test on the memo dict %s" % k)
+
+    def sv_truth(self, it):
+        raise Unsupported("truth of the memo dict %s" % self._key())
+
+    def sv_getattr(self, it, name):
+        raise Unsupported("method %s of the memo dict %s" % (name, self._key()))
+
+
 # --------------------------------------------------------------------------- interpreter
 class Interp:
     def __init__(self, repo, domain, ctx, contracts=None, verifying=None):
@@ -670,6 +778,9 @@ class Interp:
         self.module_cache = {}
         self.call_log = []
         self.steps = 0
+        self.frames = []                  # frames of the package functions being executed (innermost last)
+        self.memo_mode = {}               # memo dict name -> "miss" while an earlier call is re-enacted
+        self.memo_stores = {}             # memo dict name -> [(key, value)] stored on this path
 
     # ---- small helpers
     def fresh_real(self, base="r"):
@@ -768,6 +879,11 @@ class Interp:
                 return MISSING
             return self.domain.external(self, mod + "." + n)
         if name in module.assigns:
+            writers = memo_writers(module, name)
+            if writers is not None:
+                # a module-level dict that functions of the module store into: its contents at the time of
+                # a call are whatever earlier calls left there, not the literal it was initialised with
+                return SMemoDict(module, name, writers)
             return self.eval_in_module(module, module.assigns[name])
         return MISSING
 
@@ -854,12 +970,16 @@ class Interp:
             mframe = Frame(fi.module)
             bound = self.bind(fi.node, args, kwargs, mframe)
             frame = Frame(fi.module, bound, func=fi)
+            frame.entry_args = dict(bound)
             if fi.cls is not None:
                 frame.locals.setdefault("__class__", ClassRef(fi.cls))
+            self.frames.append(frame)
             try:
                 self.exec_block(fi.node.body, frame)
             except _Return as r:
                 return r.value
+            finally:
+                self.frames.pop()
             return None
         finally:
             self.depth -= 1
